@@ -39,7 +39,7 @@ theorem source_shape_as_modelled :
     attributeShapeAsModelled = true ∧ attributeArgumentLiteralsBare = true ∧ stagesCopyKindAndThreadGroupSize = true ∧
     metadataIsExportersDescription = true ∧ entryLookupIsByNameAmongAllFunctions = true ∧
     frontFacts = ⟨true, true, true, true, true, true, true, true, true, true, true, true, true, true, true, true,
-                  true⟩ ∧
+                  true, true, true, true, true, true⟩ ∧
     (regOpen, regSep, regSpace, regClose) = (" : register(", ", ", "space", ")") := by decide
 
 /-- The two exporters use the same ObjectType ↦ DescriptorType table. -/
@@ -928,21 +928,22 @@ example : reportStage false [{ name := "float16_t", emitted := "float16_t_0", at
 
 open RsslVerif.Model.MetaFront RsslVerif.Lemmas.MetaFront in
 /-- A `Pipeline` block the front end accepts yields one stage record per stage property, in the order the
-    properties are written (not in a canonical stage order); each record points at the one function of the module
+    properties are written (not in a canonical stage order); each record points at the one function of the registry
+    (`funcs` = the registry *as the block finds it*: the functions registered so far and the intrinsics)
     that carries the given name — a function with a body that is no template — and stores the last
     `numthreads` attribute of exactly that function, for every stage kind alike. -/
 theorem stage_records_follow_properties {funcs : List FnSrc} {earlier : List String} {p : PipeSrc} {d : PipeDef}
     (h : parsePipeline funcs earlier p = .ok d) :
     d.stages.map (·.stage) = p.stages.map (·.1) ∧ d.stages ≠ [] ∧ d.dflt = p.dflt.getD 0 ∧
     ∀ s ∈ d.stages, ∃ q ∈ p.stages, s.stage = q.1 ∧ fnIndices funcs q.2 0 = [s.entry] ∧
-      ∃ f, funcs[s.entry]? = some f ∧ f.name = q.2 ∧ f.hasBody = true ∧ f.isTemplate = false ∧
+      ∃ f, funcs[s.entry]? = some f ∧ f.name = q.2 ∧ f.hasBody = true ∧ f.isTemplate = false ∧ f.registered = true ∧
         s.threadGroupSize = lastNumThreads f.attrs := by
   obtain ⟨_, _, hd, hmap, hne, hall, _⟩ := parsePipeline_ok h
   refine ⟨hmap, hne, hd, ?_⟩
   intro s hs
   obtain ⟨q, hq, hadd⟩ := hall s hs
-  obtain ⟨h1, h2, f, hf, hn, ht, hb, htg⟩ := addStage_ok hadd
-  exact ⟨q, hq, h1, h2, f, hf, hn, hb, ht, htg⟩
+  obtain ⟨h1, h2, f, hf, hn, ht, hb, hr, htg⟩ := addStage_ok hadd
+  exact ⟨q, hq, h1, h2, f, hf, hn, hb, ht, hr, htg⟩
 
 open RsslVerif.Model.MetaFront RsslVerif.Lemmas.MetaFront in
 /-- `build_pipeline` copies `stage.thread_group_size` of the record; that is the value `reportStage` computes
@@ -955,7 +956,7 @@ theorem reported_size_is_the_typers_record {funcs : List FnSrc} {earlier : List 
       r.stage = s.stage ∧ r.threadGroupSize = s.threadGroupSize := by
   intro s hs
   obtain ⟨_, _, _, hall⟩ := stage_records_follow_properties h
-  obtain ⟨_, _, _, _, f, hf, _, _, _, htg⟩ := hall s hs
+  obtain ⟨_, _, _, _, f, hf, _, _, _, _, htg⟩ := hall s hs
   obtain ⟨g, hg, hga⟩ := hsame _ f hf
   refine ⟨{ stage := s.stage, entryPoint := if msl then mslEntryName s.stage else g.emitted,
             threadGroupSize := lastNumThreads g.attrs }, by simp [reportStage, hg], rfl, ?_⟩
@@ -963,32 +964,40 @@ theorem reported_size_is_the_typers_record {funcs : List FnSrc} {earlier : List 
 
 open RsslVerif.Model.MetaFront RsslVerif.Lemmas.MetaFront in
 /-- **The reported thread group size is the emitted one.**  Since fix 0f5be73 ("a function attribute can be given
-    only once") a file the front end accepts declares no function with a second `numthreads` attribute.  So for
-    every pipeline of an accepted file, every stage record and both back ends: the stage reports the emitted entry
-    function, and the thread group size attributes that function is emitted with are *exactly* the reported size
-    (`[]` when none is reported, `[t]` when `t` is) — for every stage kind.  This replaces the negation witness
-    `thread_group_size_ambiguous_witness` (two attributes, the report agreeing with only one of them).
-    `funcs` = the function registry: the functions of the file and the intrinsics (which carry no attribute). -/
+    only once") a file the front end accepts *defines* no function with a second `numthreads` attribute (a forward
+    declaration may carry any: `parse_function` never parses its attributes — and never stores them either).  A stage
+    entry function has an implementation when its `Pipeline` block is met, so it was defined by an earlier root
+    definition of the file and went through `parse_function_attributes`.  So for every pipeline of an accepted file,
+    every stage record and both back ends: the stage reports the emitted entry function, and the thread group size
+    attributes that function is emitted with are *exactly* the reported size (`[]` when none is reported, `[t]` when
+    `t` is) — for every stage kind.  This replaces the negation witness `thread_group_size_ambiguous_witness` (two
+    attributes, the report agreeing with only one of them).
+    `funcs` = the table of all functions the file registers plus the intrinsics; the only hypothesis on it: before the
+    file is read nothing has an implementation (intrinsics never have one). -/
 theorem reported_thread_group_size_is_emitted {funcs : List FnSrc} {items : List Item} {ds : List PipeDef}
-    (h : parseFile funcs [] items = .ok ds)
-    (hfuncs : ∀ f ∈ funcs, f ∈ itemFns items ∨ f.attrs = [])
+    (h : parseFile funcs [] [] [] items = .ok ds)
+    (hfuncs : ∀ f ∈ funcs, f.hasBody = false)
     {fdefs : List FuncDef} (msl : Bool)
     (hsame : ∀ (i : Nat) (f : FnSrc), funcs[i]? = some f → ∃ g : FuncDef, fdefs[i]? = some g ∧ g.attrs = f.attrs) :
     ∀ d ∈ ds, ∀ s ∈ d.stages, ∃ r, reportStage msl fdefs { stage := s.stage, entry := s.entry } = some r ∧
       emittedStage msl fdefs { stage := s.stage, entry := s.entry } = some (r.entryPoint, r.threadGroupSize.toList) ∧
       r.stage = s.stage ∧ r.threadGroupSize = s.threadGroupSize := by
   intro d hd s hs
-  obtain ⟨hpipes, hone⟩ := parseFile_ok h
-  obtain ⟨p, _, e, hp⟩ := parsePipelines_mem hpipes d hd
+  obtain ⟨hone, hpipes⟩ := parseFile_ok h
+  obtain ⟨p, _, dc', df', e, hp, hdf⟩ := hpipes d hd
   obtain ⟨_, _, _, hall⟩ := stage_records_follow_properties hp
-  obtain ⟨_, _, _, _, f, hf, _, _, _, htg⟩ := hall s hs
+  obtain ⟨_, _, _, _, v, hv, _, hvb, _, _, htg⟩ := hall s hs
+  obtain ⟨f, hf, _, hfa, _, hfb, _⟩ := regAt_getElem? hv
   obtain ⟨g, hg, hga⟩ := hsame _ f hf
   have hlen : f.attrs.length ≤ 1 := by
-    rcases hfuncs f (List.mem_of_getElem? hf) with hm | he
-    · exact hone f hm
-    · simp [he]
+    have hnb := hfuncs f (List.mem_of_getElem? hf)
+    rw [hfb, hnb] at hvb
+    have hmem : s.entry ∈ df' := by simpa using hvb
+    rcases hdf _ hmem with hm | hm
+    · cases hm
+    · exact hone _ hm f hf
   refine ⟨{ stage := s.stage, entryPoint := if msl then mslEntryName s.stage else g.emitted,
-            threadGroupSize := lastNumThreads g.attrs }, by simp [reportStage, hg], ?_, rfl, by simp [htg, hga]⟩
+            threadGroupSize := lastNumThreads g.attrs }, by simp [reportStage, hg], ?_, rfl, by simp [htg, hga, hfa]⟩
   simp only [emittedStage, hg, Option.some.injEq, Prod.mk.injEq]
   refine ⟨?_, ?_⟩
   · cases msl with
@@ -997,24 +1006,64 @@ theorem reported_thread_group_size_is_emitted {funcs : List FnSrc} {items : List
   · rw [hga]; exact lastNumThreads_of_length hlen
 
 open RsslVerif.Model.MetaFront in
-/-- the former witness is now refused by the front end, whatever follows the function … -/
-example : parseFile [⟨"cs_0", [(9, 4, 1), (8, 4, 1)], true, false⟩] []
-    [.fn ⟨"cs_0", [(9, 4, 1), (8, 4, 1)], true, false⟩, .pipe ⟨"P0", [(.Compute, "cs_0")], none, false⟩] =
+/-- the former witness is now refused by the front end, whatever follows the definition … -/
+example : parseFile [⟨"cs_0", [(9, 4, 1), (8, 4, 1)], false, false, false⟩] [] [] []
+    [.defn 0, .pipe ⟨"P0", [(.Compute, "cs_0")], none, false⟩] =
     .error .FunctionAttributeDuplicate := rfl
 
 open RsslVerif.Model.MetaFront in
 /-- … while the same file with one attribute is accepted and records it (the hypotheses of
-    `reported_thread_group_size_is_emitted` are satisfiable) -/
-example : (parseFile [⟨"cs_0", [(8, 4, 1)], true, false⟩] []
-    [.fn ⟨"cs_0", [(8, 4, 1)], true, false⟩, .pipe ⟨"P0", [(.Compute, "cs_0")], none, false⟩]).toOption.map
+    `reported_thread_group_size_is_emitted` are satisfiable), also with a forward declaration in front -/
+example : (parseFile [⟨"cs_0", [(8, 4, 1)], false, false, false⟩] [] [] []
+    [.decl 0, .defn 0, .pipe ⟨"P0", [(.Compute, "cs_0")], none, false⟩]).toOption.map
       (·.map (·.stages)) = some [[⟨.Compute, 0, some (8, 4, 1)⟩]] := by decide
 
+/-! ## the order of the front end's errors -/
+
 open RsslVerif.Model.MetaFront RsslVerif.Lemmas.MetaFront in
-/-- the pipelines of an accepted file have pairwise different names: selecting by name is unambiguous -/
-theorem pipeline_names_distinct {funcs : List FnSrc} {ps : List PipeSrc} {ds : List PipeDef}
-    (h : parsePipelines funcs [] ps = .ok ds) :
-    ds.map (·.name) = ps.map (·.name) ∧ (ds.map (·.name)).Pairwise (· ≠ ·) := by
-  rcases parsePipelines_names h with ⟨h1, h2⟩ | h3
+/-- **The first error in file order wins**, for every file: when the root definitions up to some point are refused,
+    the file is refused with exactly that error, whatever follows (`type_check_internal` returns at the first `?`). -/
+theorem first_front_end_error_wins {funcs : List FnSrc} {e : FrontErr} {pre : List Item} (post : List Item)
+    {dc df : List Nat} {earlier : List String} (h : parseFile funcs dc df earlier pre = .error e) :
+    parseFile funcs dc df earlier (pre ++ post) = .error e :=
+  parseFile_prefix_error post h
+
+/-- the function table of the reduced seed-1 soak program: one mesh entry point written with two `numthreads` -/
+def soakFuncs : List RsslVerif.Model.MetaFront.FnSrc := [⟨"ms_2", [(2, 2, 1), (1, 2, 1)], false, false, false⟩]
+
+/-- an entry point and a second function of the same name (an overload) -/
+def overloadFuncs : List RsslVerif.Model.MetaFront.FnSrc :=
+  [⟨"cs_0", [(8, 4, 1)], false, false, false⟩, ⟨"cs_0", [], false, false, false⟩]
+
+open RsslVerif.Model.MetaFront in
+/-- the program of the seed-1 soak, reduced: a forward declaration with two `numthreads`, a `Pipeline` block without
+    entry point, then the definition (two `numthreads`).  The declaration's attributes are not parsed: the block is the
+    first error.  With the definition in front of the block the attribute error comes first; a block that names the
+    entry point between declaration and definition finds a function without implementation. -/
+example :
+    parseFile soakFuncs [] [] [] [.decl 0, .pipe ⟨"P0", [], none, true⟩, .defn 0] = .error .PipelineNoEntryPoint ∧
+    parseFile soakFuncs [] [] [] [.decl 0, .defn 0, .pipe ⟨"P0", [], none, true⟩] = .error .FunctionAttributeDuplicate ∧
+    parseFile soakFuncs [] [] [] [.decl 0, .pipe ⟨"P0", [(.Mesh, "ms_2")], none, false⟩, .defn 0] =
+      .error .PipelineEntryPointFunctionUnknown ∧
+    parseFile soakFuncs [] [] [] [.pipe ⟨"P0", [(.Mesh, "ms_2")], none, false⟩, .defn 0] =
+      .error .PipelineEntryPointFunctionUnknown := ⟨rfl, rfl, rfl, rfl⟩
+
+open RsslVerif.Model.MetaFront in
+/-- the entry point is looked up in the registry *of the moment*: an overload defined after the `Pipeline` block does
+    not make the name ambiguous (accepted, record points at function 0), one defined before it does -/
+example :
+    (parseFile overloadFuncs [] [] [] [.defn 0, .pipe ⟨"P0", [(.Compute, "cs_0")], none, false⟩, .defn 1]).toOption.map
+      (·.map (·.stages)) = some [[⟨.Compute, 0, some (8, 4, 1)⟩]] ∧
+    parseFile overloadFuncs [] [] [] [.defn 0, .defn 1, .pipe ⟨"P0", [(.Compute, "cs_0")], none, false⟩] =
+      .error .PipelineEntryPointFunctionUnknown := ⟨by decide, rfl⟩
+
+open RsslVerif.Model.MetaFront RsslVerif.Lemmas.MetaFront in
+/-- the pipelines of an accepted file — `Pipeline` blocks anywhere between the functions — are its blocks in source
+    order and have pairwise different names: selecting by name is unambiguous -/
+theorem pipeline_names_distinct {funcs : List FnSrc} {items : List Item} {dc df : List Nat} {ds : List PipeDef}
+    (h : parseFile funcs dc df [] items = .ok ds) :
+    ds.map (·.name) = (itemPipes items).map (·.name) ∧ (ds.map (·.name)).Pairwise (· ≠ ·) := by
+  rcases parseFile_names h with ⟨h1, h2⟩ | h3
   · exact ⟨h1, by simpa [h1] using h2⟩
   · exact absurd List.Pairwise.nil h3
 
@@ -1123,15 +1172,15 @@ theorem same_leaf_name_in_two_namespaces_witness :
     names that can be kept are claimed first); a compute stage next to
     another stage and a second pipeline of the same name are refused. -/
 open RsslVerif.Model.MetaFront in
-example : (parsePipeline [⟨"h", [], true, false⟩, ⟨"vs", [], true, false⟩, ⟨"ps", [(4, 2, 1)], true, false⟩] ["P0"]
+example : (parsePipeline [⟨"h", [], true, false, true⟩, ⟨"vs", [], true, false, true⟩, ⟨"ps", [(4, 2, 1)], true, false, true⟩] ["P0"]
       ⟨"P1", [(.Pixel, "ps"), (.Vertex, "vs")], some 2, true⟩).toOption =
     some ⟨"P1", 2, [⟨.Pixel, 2, some (4, 2, 1)⟩, ⟨.Vertex, 1, none⟩], true⟩ := by decide
 
 open RsslVerif.Model.MetaFront in
-example : (parsePipeline [⟨"cs", [(8, 4, 1)], true, false⟩, ⟨"ps", [], true, false⟩] []
+example : (parsePipeline [⟨"cs", [(8, 4, 1)], true, false, true⟩, ⟨"ps", [], true, false, true⟩] []
       ⟨"P0", [(.Compute, "cs"), (.Pixel, "ps")], none, false⟩).toOption = none ∧
-    (parsePipeline [⟨"cs", [(8, 4, 1)], true, false⟩] ["P0"] ⟨"P0", [(.Compute, "cs")], none, false⟩).toOption = none ∧
-    (parsePipeline [⟨"cs", [(8, 4, 1)], true, false⟩, ⟨"cs", [], true, false⟩] [] ⟨"P0", [(.Compute, "cs")], none, false⟩).toOption = none := by
+    (parsePipeline [⟨"cs", [(8, 4, 1)], true, false, true⟩] ["P0"] ⟨"P0", [(.Compute, "cs")], none, false⟩).toOption = none ∧
+    (parsePipeline [⟨"cs", [(8, 4, 1)], true, false, true⟩, ⟨"cs", [], true, false, true⟩] [] ⟨"P0", [(.Compute, "cs")], none, false⟩).toOption = none := by
   decide
 
 example : (RsslVerif.Model.Names.build hlslReserved
